@@ -157,13 +157,14 @@ Proof. unfold chk_C15, model_case. cbn [rc_steps]. apply (chk_C15_model cfg h (i
 
 (* ---------- what never changes about an allocation: a frame lemma ---------- *)
 Definition same_id (a a' : alloc) : Prop :=
-  a_client a' = a_client a /\ a_relay a' = a_relay a /\ a_fam a' = a_fam a /\ a_proto a' = a_proto a /\ a_user a' = a_user a.
+  a_client a' = a_client a /\ a_relay a' = a_relay a /\ a_fam a' = a_fam a /\ a_proto a' = a_proto a /\ a_user a' = a_user a /\
+  a_cache a' = a_cache a /\ a_tid a' = a_tid a.
 
 Lemma same_id_refl a : same_id a a.
-Proof. unfold same_id. auto 6. Qed.
+Proof. unfold same_id. auto 10. Qed.
 
 Lemma add_perm_id a i dl a' ev : add_perm a i dl = (a', ev) -> same_id a a'.
-Proof. unfold add_perm. intros H. inversion H; subst. unfold same_id; cbn. auto 6. Qed.
+Proof. unfold add_perm. intros H. inversion H; subst. unfold same_id; cbn. auto 10. Qed.
 
 Lemma install_perms_id dl peers : forall a a' ev, install_perms a dl peers = (a', ev) -> same_id a a'.
 Proof.
@@ -183,17 +184,19 @@ Proof.
   destruct (a_dl a <=? t).
   - inversion H1; subst. destruct (IH _ _ eq_refl _ Hin) as (x & Hx & Hs). exists x. split; [right; exact Hx|exact Hs].
   - inversion H1; subst; clear H1. destruct Hin as [<-|Hin].
-    + exists a. split; [left; reflexivity|]. unfold same_id; cbn. auto 6.
+    + exists a. split; [left; reflexivity|]. unfold same_id; cbn. auto 10.
     + destruct (IH _ _ eq_refl _ Hin) as (x & Hx & Hs). exists x. split; [right; exact Hx|exact Hs].
 Qed.
 
 (* an allocation of the state after a step is one of the state before with the same identity, or the one a successful
    Allocate has just created: for the requester, of a family 1 or 2, on the relay IP of that family *)
-Definition fresh_alloc (cfg : config) (e : event) (a' : alloc) : Prop :=
+Definition fresh_alloc (cfg : config) (s : state) (e : event) (a' : alloc) : Prop :=
   (exists src tid c r unk, e = EReq src tid c r unk /\ a_client a' = src) /\
+  find_alloc (a_client a') (allocs s) = None /\
   (a_fam a' = 1%N \/ a_fam a' = 2%N) /\
   ip (a_relay a') = (if (a_fam a' =? 2)%N then cfg_relay_ip6 cfg else cfg_relay_ip4 cfg) /\
-  a_perms a' = [] /\ a_chans a' = [].
+  a_perms a' = [] /\ a_chans a' = [] /\
+  mapped_attr (a_cache a') = Some (a_client a') /\ relayed_attr (a_cache a') = Some (a_relay a').
 
 Lemma default_family_12 cfg src : default_family cfg src = 1%N \/ default_family cfg src = 2%N.
 Proof.
@@ -202,13 +205,13 @@ Proof.
 Qed.
 
 Theorem step_frame cfg s e s' acts : step cfg s e = (s', acts) ->
-  forall a', In a' (allocs s') -> (exists a, In a (allocs s) /\ same_id a a') \/ fresh_alloc cfg e a'.
+  forall a', In a' (allocs s') -> (exists a, In a (allocs s) /\ same_id a a') \/ fresh_alloc cfg s e a'.
 Proof.
   intros H a' Hin.
-  assert (Same : s' = s -> (exists a, In a (allocs s) /\ same_id a a') \/ fresh_alloc cfg e a').
+  assert (Same : s' = s -> (exists a, In a (allocs s) /\ same_id a a') \/ fresh_alloc cfg s e a').
   { intros ->. left. exists a'. split; [exact Hin|apply same_id_refl]. }
   assert (Repl : forall a x, In a (allocs s) -> same_id a x -> In a' (replace_alloc x (allocs s)) ->
-            (exists a0, In a0 (allocs s) /\ same_id a0 a') \/ fresh_alloc cfg e a').
+            (exists a0, In a0 (allocs s) /\ same_id a0 a') \/ fresh_alloc cfg s e a').
   { intros a x Ha Hs Hi. left. apply replace_alloc_in in Hi as [->|Hi]; [exists a; auto|exists a'; split; [exact Hi|apply same_id_refl]]. }
   destruct e as [src tid c r unk|src p d|src n d|relay from d|dt|relay]; cbn [step] in H.
   - destruct unk; [inversion H; subst; apply Same; reflexivity|].
@@ -229,7 +232,7 @@ Proof.
       repeat (dmatch H; try (inversion H; subst; apply Same; reflexivity)).
       all: inversion H; subst; clear H; cbn [allocs set_allocs] in Hin.
       all: try (left; apply remove_alloc_in in Hin; exists a'; split; [exact Hin|apply same_id_refl]).
-      all: eapply Repl; [exact Ha| |exact Hin]; unfold same_id; cbn; auto 6.
+      all: eapply Repl; [exact Ha| |exact Hin]; unfold same_id; cbn; auto 10.
     + unfold h_create_perm in H.
       destruct (owned_alloc s src uid) as [a|] eqn:Ho; [|inversion H; subst; apply Same; reflexivity].
       apply owned_alloc_some in Ho as (Ha & _ & _).
@@ -274,7 +277,7 @@ Definition relfam (s : state) : Prop := Forall (fun a => fam_of (ip (a_relay a))
 Lemma relfam_step cfg s e s' acts : cfg_relay_wf cfg -> relfam s -> step cfg s e = (s', acts) -> relfam s'.
 Proof.
   intros [W4 W6] Hr Hs. unfold relfam in *. rewrite Forall_forall in *. intros a' Hin.
-  destruct (step_frame _ _ _ _ _ Hs _ Hin) as [(a & Ha & (_ & Er & Ef & _))|(_ & Hf & Hip & _)].
+  destruct (step_frame _ _ _ _ _ Hs _ Hin) as [(a & Ha & (_ & Er & Ef & _))|(_ & _ & Hf & Hip & _)].
   - rewrite Er, Ef. apply Hr. exact Ha.
   - unfold fam_of. rewrite Hip. destruct Hf as [E|E]; rewrite E; cbn; [rewrite W4|rewrite W6]; reflexivity.
 Qed.
@@ -462,4 +465,408 @@ Theorem chk_C08_model cfg ep h : chk_C08 (model_case cfg ep h) = true.
 Proof.
   unfold chk_C08, model_case. cbn [rc_steps]. change (@nil obs_alloc) with (listing_of (init ep)).
   apply (all_steps_model cfg chk_C08_step (chk_C08_step_model cfg) h (init ep)). apply inv_init.
+Qed.
+
+(* ---------- the shape of a request's outcome: lifecycle events, then at most one answer ---------- *)
+Definition shaped (src : addr) (m : method) (tid : N) (acts : list action) : Prop :=
+  exists evs tail, acts = evs ++ tail /\ Forall RelayGates.is_life evs /\
+    (tail = [] \/ (exists at_, tail = [Success src m tid at_]) \/ (exists code ch, tail = [Error src m tid code ch])).
+
+Lemma shaped_nil src m tid : shaped src m tid [].
+Proof. exists [], []. split; [reflexivity|split; [constructor|auto]]. Qed.
+Lemma shaped_err src m tid code ch : shaped src m tid [Error src m tid code ch].
+Proof. exists [], [Error src m tid code ch]. split; [reflexivity|split; [constructor|right; right; eauto]]. Qed.
+Lemma shaped_ok src m tid at_ : shaped src m tid [Success src m tid at_].
+Proof. exists [], [Success src m tid at_]. split; [reflexivity|split; [constructor|right; left; eauto]]. Qed.
+Lemma shaped_app_life src m tid evs l : Forall RelayGates.is_life evs -> shaped src m tid l -> shaped src m tid (evs ++ l).
+Proof.
+  intros He (e2 & tail & -> & H2 & Ht). exists (evs ++ e2), tail. split; [apply app_assoc|split; [apply Forall_app; auto|exact Ht]].
+Qed.
+Lemma shaped_cons_life src m tid e l : shaped src m tid l -> shaped src m tid (Life e :: l).
+Proof. intros H. apply (shaped_app_life src m tid [Life e]); [repeat constructor|exact H]. Qed.
+
+Ltac shp := repeat first
+  [ apply shaped_nil | apply shaped_err | apply shaped_ok | apply shaped_cons_life
+  | apply shaped_app_life; [first [eassumption | apply close_events_life]|] ].
+
+Theorem req_shape cfg s src tid c r unk s' acts :
+  step cfg s (EReq src tid c r unk) = (s', acts) -> shaped src (req_method r) tid acts.
+Proof.
+  cbn [step]. intros H. destruct unk; [inversion H; subst; shp|].
+  destruct r as [tr lt fam df rp ep rt mt|lt fam|peers|n p|]; try (inversion H; subst; shp; fail);
+    destruct (authenticate cfg s c) as [uid|code ch]; try (inversion H; subst; shp; fail); cbn [req_method].
+  - unfold h_allocate in H. repeat (dmatch H; try (inversion H; subst; shp; fail)). all: inversion H; subst; shp.
+  - unfold h_refresh in H. cbv zeta in H. repeat (dmatch H; try (inversion H; subst; shp; fail)).
+    all: try (inversion H; subst; shp; fail).
+  - unfold h_create_perm in H.
+    destruct (owned_alloc s src uid) as [a|]; [|inversion H; subst; shp].
+    destruct (perm_check cfg a peers); [inversion H; subst; shp|].
+    destruct peers as [|q peers]; [inversion H; subst; shp|].
+    destruct (install_perms a _ (q :: peers)) as [a' evs] eqn:Hi. inversion H; subst.
+    apply install_perms_life in Hi. shp.
+  - unfold h_channel_bind in H. repeat (dmatch H; try (inversion H; subst; shp; fail)).
+    all: inversion H; subst; match goal with Ha : add_perm _ _ _ = (_, _) |- _ => apply add_perm_life in Ha end; shp.
+Qed.
+
+Lemma replies_life evs : Forall RelayGates.is_life evs -> replies evs = [].
+Proof.
+  unfold replies. induction evs as [|a l IH]; intros H; [reflexivity|]. inversion H as [|? ? Ha Hl]; subst.
+  destruct a; cbn in Ha; try contradiction. cbn. apply IH. exact Hl.
+Qed.
+Lemma lifes_life evs : Forall RelayGates.is_life evs -> lifes evs = evs.
+Proof.
+  unfold lifes. induction evs as [|a l IH]; intros H; [reflexivity|]. inversion H as [|? ? Ha Hl]; subst.
+  destruct a; cbn in Ha; try contradiction. cbn. rewrite (IH Hl). reflexivity.
+Qed.
+Lemma replies_app a b : replies (a ++ b) = replies a ++ replies b.
+Proof. unfold replies. apply filter_app. Qed.
+Lemma lifes_app a b : lifes (a ++ b) = lifes a ++ lifes b.
+Proof. unfold lifes. apply filter_app. Qed.
+
+(* ---------- C19 ---------- *)
+(* environment: the relay address generator never hands out a port that a live allocation holds (C20 for the bundled
+   generators; the operating system for a custom one) *)
+Definition env_fresh (s : state) (e : event) : Prop :=
+  match e with
+  | EReq _ _ _ (RqAllocate _ _ _ _ (Some rp) _ _ _) _ => forall a, In a (allocs s) -> port (a_relay a) <> rp
+  | _ => True
+  end.
+Fixpoint env_ok (cfg : config) (s : state) (h : list event) : Prop :=
+  match h with [] => True | e :: r => env_fresh s e /\ env_ok cfg (fst (step cfg s e)) r end.
+
+Definition relays_unique (s : state) : Prop := NoDup (map a_relay (allocs s)).
+
+Lemma replace_alloc_map_relay a a' l : In a l -> NoDup (map a_client l) -> a_client a' = a_client a -> a_relay a' = a_relay a ->
+  map a_relay (replace_alloc a' l) = map a_relay l.
+Proof.
+  induction l as [|x l IH]; cbn; [contradiction|]. intros Hin Hnd Hc Hr. inversion Hnd as [|? ? Hx Hl]; subst.
+  destruct (addr_eqb (a_client x) (a_client a')) eqn:E.
+  - apply addr_eqb_eq in E. destruct Hin as [->|Hin]; [cbn; congruence|].
+    exfalso. apply Hx. rewrite E, Hc. apply in_map. exact Hin.
+  - cbn. f_equal. destruct Hin as [->|Hin]; [apply addr_eqb_neq in E; congruence|]. apply IH; assumption.
+Qed.
+
+Lemma remove_alloc_relays c l : NoDup (map a_relay l) -> NoDup (map a_relay (remove_alloc c l)).
+Proof.
+  induction l as [|x l IH]; cbn; [auto|]. intros H. inversion H as [|? ? Hx Hl]; subst.
+  destruct (addr_eqb (a_client x) c); cbn; [assumption|]. constructor; [|auto].
+  intros Hin. apply Hx. apply in_map_iff in Hin as (y & E & Hy). rewrite <- E. apply in_map. eapply remove_alloc_in; eauto.
+Qed.
+
+Lemma tick_allocs_relays t l : forall l' ev, tick_allocs t l = (l', ev) -> NoDup (map a_relay l) ->
+  NoDup (map a_relay l') /\ (forall r, In r (map a_relay l') -> In r (map a_relay l)).
+Proof.
+  induction l as [|a l IH]; cbn [tick_allocs]; intros l' ev H Hnd; [inversion H; subst; split; auto|].
+  destruct (tick_alloc t a) as [oa e1] eqn:H1. destruct (tick_allocs t l) as [r e2] eqn:H2.
+  inversion H; subst; clear H. inversion Hnd as [|? ? Hx Hl]; subst. destruct (IH _ _ eq_refl Hl) as [I1 I2].
+  unfold tick_alloc in H1. destruct (a_dl a <=? t); inversion H1; subst; clear H1.
+  - split; [exact I1|]. intros r0 Hr. right. auto.
+  - cbn. split; [constructor; [intros Hin; apply Hx; auto|exact I1]|]. intros r0 [E|Hr]; auto.
+Qed.
+
+Lemma relays_unique_step cfg s e s' acts : inv cfg s -> relays_unique s -> env_fresh s e -> step cfg s e = (s', acts) -> relays_unique s'.
+Proof.
+  intros Hinv Hu He H. pose proof Hinv as [Hnd _]. unfold relays_unique in *.
+  assert (Same : s' = s -> NoDup (map a_relay (allocs s'))) by (intros ->; exact Hu).
+  assert (Repl : forall a x, In a (allocs s) -> same_id a x -> NoDup (map a_relay (replace_alloc x (allocs s)))).
+  { intros a x Ha (Hc & Hr & _). rewrite (replace_alloc_map_relay a x); auto. }
+  destruct e as [src tid c r unk|src p d|src n d|relay from d|dt|relay]; cbn [step] in H.
+  - destruct unk; [inversion H; subst; apply Same; reflexivity|].
+    destruct r as [tr lt fam df rp ep rt mt|lt fam|peers|n p|]; try (inversion H; subst; apply Same; reflexivity);
+      destruct (authenticate cfg s c) as [uid|code ch]; try (inversion H; subst; apply Same; reflexivity).
+    + unfold h_allocate in H. repeat (dmatch H; try (inversion H; subst; apply Same; reflexivity)).
+      all: inversion H; subst; clear H; cbn [allocs set_allocs add_rsv]; rewrite map_app; cbn [map].
+      all: apply NoDup_app_single; [exact Hu|]; intros Hin; apply in_map_iff in Hin as (y & E & Hy);
+           cbn [env_fresh] in He; apply (He y Hy); rewrite E; reflexivity.
+    + unfold h_refresh in H. cbv zeta in H.
+      destruct (owned_alloc s src uid) as [a|] eqn:Ho; [|inversion H; subst; apply Same; reflexivity].
+      apply owned_alloc_some in Ho as (Ha & _ & _).
+      repeat (dmatch H; try (inversion H; subst; apply Same; reflexivity)).
+      all: inversion H; subst; clear H; cbn [allocs set_allocs].
+      all: try (apply remove_alloc_relays; exact Hu).
+      all: eapply Repl; [exact Ha|]; unfold same_id; cbn; auto 10.
+    + unfold h_create_perm in H.
+      destruct (owned_alloc s src uid) as [a|] eqn:Ho; [|inversion H; subst; apply Same; reflexivity].
+      apply owned_alloc_some in Ho as (Ha & _ & _).
+      destruct (perm_check cfg a peers); [inversion H; subst; apply Same; reflexivity|].
+      destruct peers as [|q peers]; [inversion H; subst; apply Same; reflexivity|].
+      destruct (install_perms a (now s + cfg_perm_timeout cfg) (q :: peers)) as [a1 evs] eqn:Hi.
+      inversion H; subst; clear H. cbn [allocs set_allocs].
+      eapply Repl; [exact Ha|eapply install_perms_id; eauto].
+    + unfold h_channel_bind in H.
+      destruct (owned_alloc s src uid) as [a|] eqn:Ho; [|inversion H; subst; apply Same; reflexivity].
+      apply owned_alloc_some in Ho as (Ha & _ & _).
+      repeat (dmatch H; try (inversion H; subst; apply Same; reflexivity)).
+      all: inversion H; subst; clear H; cbn [allocs set_allocs].
+      all: match goal with E : add_perm _ _ _ = (?x, _) |- _ => apply add_perm_id in E;
+             eapply Repl; [exact Ha|]; unfold same_id in *; cbn in *; intuition congruence end.
+  - unfold h_send in H. repeat (dmatch H; try (inversion H; subst; apply Same; reflexivity)).
+  - unfold h_chandata in H. repeat (dmatch H; try (inversion H; subst; apply Same; reflexivity)).
+  - unfold h_peer in H. repeat (dmatch H; try (inversion H; subst; apply Same; reflexivity)).
+  - unfold h_tick in H. destruct (tick_allocs (now s + Z.max 0 dt) (allocs s)) as [l evs] eqn:Ht.
+    inversion H; subst; clear H. cbn [allocs]. eapply tick_allocs_relays; eauto.
+  - unfold h_relay_err in H. destruct (find_relay relay (allocs s)) as [a|]; inversion H; subst; [|apply Same; reflexivity].
+    cbn [allocs set_allocs]. apply remove_alloc_relays. exact Hu.
+Qed.
+
+Lemma no_error_in_life l d m t c ch : Forall RelayGates.is_life l -> ~ In (Error d m t c ch) l.
+Proof. intros H Hin. rewrite Forall_forall in H. apply H in Hin. exact Hin. Qed.
+
+(* an error answer means the request changed nothing, and the error is all that happened *)
+Theorem error_means_unchanged cfg s src tid c r unk s' acts d m t code ch :
+  step cfg s (EReq src tid c r unk) = (s', acts) -> In (Error d m t code ch) acts ->
+  s' = s /\ acts = [Error d m t code ch].
+Proof.
+  cbn [step]. intros H Hin.
+  assert (Leaf : forall x, (s', acts) = (s, [x]) -> s' = s /\ acts = [Error d m t code ch]).
+  { intros x E. inversion E; subst. destruct Hin as [->|[]]. auto. }
+  destruct unk; [apply (Leaf _ (eq_sym H))|].
+  destruct r as [tr lt fam df rp ep rt mt|lt fam|peers|n p|]; try (apply (Leaf _ (eq_sym H)); fail);
+    destruct (authenticate cfg s c) as [uid|code0 ch0]; try (apply (Leaf _ (eq_sym H)); fail).
+  - unfold h_allocate in H. repeat (dmatch H; try (apply (Leaf _ (eq_sym H)); fail)).
+    all: exfalso; inversion H; subst; cbn in Hin; intuition discriminate.
+  - unfold h_refresh in H. cbv zeta in H.
+    destruct (owned_alloc s src uid) as [a|]; [|inversion H; subst; destruct Hin].
+    repeat (dmatch H; try (apply (Leaf _ (eq_sym H)); fail)).
+    all: exfalso; inversion H; subst; try (cbn in Hin; intuition discriminate).
+    all: apply in_app_iff in Hin as [Hin|Hin]; [eapply no_error_in_life; [apply close_events_life|exact Hin]|cbn in Hin; intuition discriminate].
+  - unfold h_create_perm in H.
+    destruct (owned_alloc s src uid) as [a|]; [|inversion H; subst; destruct Hin].
+    destruct (perm_check cfg a peers); [apply (Leaf _ (eq_sym H))|].
+    destruct peers as [|q peers]; [apply (Leaf _ (eq_sym H))|].
+    destruct (install_perms a _ (q :: peers)) as [a' evs] eqn:Hi. exfalso. inversion H; subst.
+    apply install_perms_life in Hi. apply in_app_iff in Hin as [Hin|Hin]; [eapply no_error_in_life; eauto|cbn in Hin; intuition discriminate].
+  - unfold h_channel_bind in H.
+    destruct (owned_alloc s src uid) as [a|]; [|inversion H; subst; destruct Hin].
+    repeat (dmatch H; try (apply (Leaf _ (eq_sym H)); fail)).
+    all: exfalso; inversion H; subst; match goal with Ha : add_perm _ _ _ = (_, _) |- _ => apply add_perm_life in Ha end.
+    all: apply in_app_iff in Hin as [Hin|Hin]; [eapply no_error_in_life; eauto|cbn in Hin; intuition discriminate].
+Qed.
+
+Definition cache_ok (a : alloc) : Prop :=
+  mapped_attr (a_cache a) = Some (a_client a) /\ relayed_attr (a_cache a) = Some (a_relay a).
+
+Lemma cache_step cfg s e s' acts : Forall cache_ok (allocs s) -> step cfg s e = (s', acts) -> Forall cache_ok (allocs s').
+Proof.
+  intros Hc Hs. rewrite Forall_forall in *. intros a' Hin.
+  destruct (step_frame _ _ _ _ _ Hs _ Hin) as [(a & Ha & (Ecl & Er & _ & _ & _ & Eca & _))|(_ & _ & _ & _ & _ & _ & M & R)].
+  - unfold cache_ok. rewrite Eca, Ecl, Er. apply Hc. exact Ha.
+  - split; assumption.
+Qed.
+
+Lemma relay_count_zero r l : ~ In r (map a_relay l) -> filter (fun x => addr_eqb (oa_relay x) r) (map obs_of l) = [].
+Proof.
+  induction l as [|x l IH]; cbn; [reflexivity|]. intros H. destruct (addr_eqb (a_relay x) r) eqn:E.
+  - apply addr_eqb_eq in E. exfalso. apply H. left. exact E.
+  - apply IH. intros Hin. apply H. right. exact Hin.
+Qed.
+
+Lemma relay_count_one l a : NoDup (map a_relay l) -> In a l ->
+  length (filter (fun x => addr_eqb (oa_relay x) (a_relay a)) (map obs_of l)) = 1%nat.
+Proof.
+  induction l as [|x l IH]; cbn [map filter]; [contradiction|]. intros Hnd Hin. inversion Hnd as [|? ? Hx Hl]; subst.
+  cbn [obs_of oa_relay]. destruct (addr_eqb (a_relay x) (a_relay a)) eqn:E.
+  - apply addr_eqb_eq in E. cbn [length]. rewrite relay_count_zero; [reflexivity|]. rewrite <- E. exact Hx.
+  - destruct Hin as [->|Hin]; [rewrite addr_eqb_refl in E; discriminate|]. apply IH; assumption.
+Qed.
+
+Lemma find_alloc_app_new c l a : find_alloc c l = None -> a_client a = c -> find_alloc c (l ++ [a]) = Some a.
+Proof.
+  induction l as [|x l IH]; cbn; intros Hn Hc.
+  - rewrite Hc, addr_eqb_refl. reflexivity.
+  - destruct (addr_eqb (a_client x) c); [discriminate|]. apply IH; assumption.
+Qed.
+
+Lemma replies_nil_non_req cfg s e s' acts : step cfg s e = (s', acts) ->
+  match e with EReq _ _ _ _ _ => False | _ => True end -> replies acts = [].
+Proof.
+  intros Hs Hne. destruct e as [src tid c r unk|src p d|src n d|relay from d|dt|relay]; [contradiction| | | | |]; cbn [step] in Hs.
+  - apply h_send_spec in Hs as [_ [->|(a & q & dd & pm & -> & _)]]; reflexivity.
+  - apply h_chandata_spec in Hs as [_ [->|(a & c & -> & _)]]; reflexivity.
+  - apply h_peer_spec in Hs as [_ [->|(a & _ & _ & _ & [(c & _ & ->)|(_ & pm & _ & ->)])]]; reflexivity.
+  - unfold h_tick in Hs. destruct (tick_allocs _ _) as [l evs] eqn:Ht. inversion Hs; subst.
+    apply replies_life. eapply tick_allocs_life; eauto.
+  - unfold h_relay_err in Hs. destruct (find_relay relay (allocs s)); inversion Hs; subst; [|reflexivity].
+    apply replies_life. apply close_events_life.
+Qed.
+
+Lemma chk_C19_step_model cfg s e s' acts :
+  inv cfg s -> relays_unique s -> Forall cache_ok (allocs s) -> env_fresh s e -> step cfg s e = (s', acts) ->
+  chk_C19_step (listing_of s) {| os_ev := e; os_acts := acts; os_allocs := listing_of s' |} = true.
+Proof.
+  intros Hinv Hu Hca Henv Hs. unfold chk_C19_step. cbn [os_ev os_acts os_allocs].
+  destruct e as [src tid c r unk|src p d|src n d|relay from d|dt|relay];
+    try (rewrite (replies_nil_non_req _ _ _ _ _ Hs I); reflexivity).
+  destruct (req_shape _ _ _ _ _ _ _ _ _ Hs) as (evs & tail & Eacts & Hlife & Htail).
+  rewrite Eacts, replies_app, (replies_life _ Hlife). cbn [app].
+  destruct Htail as [->|[(at_ & ->)|(code & ch & ->)]]; [reflexivity| |].
+  2:{ (* an error: nothing changed *)
+    cbn [replies filter]. rewrite addr_eqb_refl, N.eqb_refl. 
+    assert (Hin : In (Error src (req_method r) tid code ch) acts) by (rewrite Eacts; apply in_or_app; right; left; reflexivity).
+    destruct (error_means_unchanged _ _ _ _ _ _ _ _ _ _ _ _ _ _ Hs Hin) as [-> Ea].
+    rewrite mset_eqb_refl. rewrite <- Eacts, Ea. cbn [lifes filter RelayCheck.is_life].
+    destruct (req_method r); cbn; destruct (code =? 437)%N; reflexivity. }
+  (* a success *)
+  cbn [replies filter]. rewrite addr_eqb_refl, N.eqb_refl.
+  assert (Hm : method_eqb (req_method r) (req_method r) = true) by (destruct (req_method r); reflexivity).
+  rewrite Hm. cbn [andb].
+  assert (Hin : In (Success src (req_method r) tid at_) acts) by (rewrite Eacts; apply in_or_app; right; left; reflexivity).
+  destruct r as [tr lt fam df rp ep rt mt|lt fam|peers|n p|]; try reflexivity.
+  - (* Allocate *)
+    cbn [req_method] in *. pose proof Hs as Hs0. cbn [step] in Hs.
+    destruct unk; [inversion Hs as [[Es Ea]]; rewrite <- Ea in Hin; cbn in Hin; destruct Hin as [E|[]]; discriminate|].
+    destruct (authenticate cfg s c) as [uid|code ch] eqn:Ha; [|inversion Hs as [[Es Ea]]; rewrite <- Ea in Hin; cbn in Hin; destruct Hin as [E|[]]; discriminate].
+    destruct (find_alloc src (allocs s)) as [a|] eqn:Hf.
+    + (* retransmission *)
+      rewrite (allocate_existing _ _ _ _ _ _ _ _ _ _ _ _ _ _ _ Ha Hf) in Hs0.
+      destruct (a_tid a =? tid)%N; inversion Hs0 as [[Es Ea]]; clear Hs0; rewrite <- Ea in Hin; [|cbn in Hin; destruct Hin as [E|[]]; discriminate].
+      subst s'. destruct Hin as [E|[]]. inversion E; subst at_.
+      pose proof (find_alloc_some _ _ _ Hf) as [Hain Hcl].
+      rewrite Forall_forall in Hca. destruct (Hca _ Hain) as [Hmap Hrel]. rewrite Hmap, Hrel, Hcl. cbn [opt_eqb].
+      rewrite addr_eqb_refl. cbn [andb]. rewrite listing_of_map, find_oalloc_listing, Hf. cbn [option_map obs_of oa_relay].
+      rewrite addr_eqb_refl, (relay_count_one _ _ Hu Hain), mset_eqb_refl. rewrite <- Ea in Eacts.
+      destruct evs as [|x evs]; [reflexivity|]. exfalso.
+      apply (f_equal (@length _)) in Eacts. rewrite app_length in Eacts. cbn in Eacts. lia.
+    + (* a new allocation *)
+      destruct (allocate_success _ _ _ _ _ _ _ _ _ _ _ _ _ _ _ _ Hs0 Hin Hf) as (a & relay & Hal & Hcl & Hrl & _ & _ & _ & Hat & _).
+      subst at_. cbn [app mapped_attr relayed_attr find]. cbn [opt_eqb]. rewrite addr_eqb_refl. cbn [andb].
+      rewrite !listing_of_map, !find_oalloc_listing, Hf, Hal, (find_alloc_app_new _ _ _ Hf Hcl).
+      cbn [option_map obs_of oa_relay]. rewrite Hrl, addr_eqb_refl. cbn [andb].
+      pose proof (relays_unique_step _ _ _ _ _ Hinv Hu Henv Hs0) as Hu'. unfold relays_unique in Hu'. rewrite Hal in Hu'.
+      rewrite <- Hrl. rewrite (relay_count_one _ a Hu'); [reflexivity|]. apply in_or_app. right. left. reflexivity.
+  - (* Binding *)
+    cbn [step] in Hs. destruct unk; inversion Hs as [[Es Ea]]; rewrite <- Ea in Hin; cbn in Hin; destruct Hin as [E|[]]; try discriminate.
+    inversion E; subst at_. cbn. rewrite addr_eqb_refl. reflexivity.
+Qed.
+
+(* ---------- C19: a retransmitted Allocate gets the same success again ---------- *)
+Lemma find_alloc_in_nodup l a : NoDup (map a_client l) -> In a l -> find_alloc (a_client a) l = Some a.
+Proof.
+  induction l as [|x l IH]; cbn; [contradiction|]. intros Hnd Hin. inversion Hnd as [|? ? Hx Hl]; subst.
+  destruct Hin as [->|Hin]; [rewrite addr_eqb_refl; reflexivity|].
+  destruct (addr_eqb (a_client x) (a_client a)) eqn:E; [|apply IH; assumption].
+  apply addr_eqb_eq in E. exfalso. apply Hx. rewrite E. apply in_map. exact Hin.
+Qed.
+
+Lemma aget_filter_key {V} (P : addr -> bool) (l : list (addr * V)) c :
+  aget addr_eqb c (filter (fun p => P (fst p)) l) = if P c then aget addr_eqb c l else None.
+Proof.
+  induction l as [|[k v] l IH]; cbn [filter aget fst]; [destruct (P c); reflexivity|].
+  destruct (P k) eqn:Pk; cbn [aget].
+  - destruct (addr_eqb c k) eqn:E; [apply addr_eqb_eq in E; subst; rewrite Pk; reflexivity|exact IH].
+  - destruct (addr_eqb c k) eqn:E; [apply addr_eqb_eq in E; subst; rewrite Pk in IH |- *; exact IH|exact IH].
+Qed.
+
+Lemma aget_adel_other {V} (l : list (addr * V)) c k : addr_eqb c k = false -> aget addr_eqb c (adel addr_eqb k l) = aget addr_eqb c l.
+Proof.
+  intros Hne. induction l as [|[k' v] l IH]; cbn [adel aget]; [reflexivity|].
+  destruct (addr_eqb k k') eqn:E.
+  - apply addr_eqb_eq in E. subst k'. rewrite Hne. exact IH.
+  - cbn [aget]. rewrite IH. reflexivity.
+Qed.
+
+Lemma aget_aset {V} (l : list (addr * V)) c k v :
+  aget addr_eqb c (aset addr_eqb k v l) = if addr_eqb c k then Some v else aget addr_eqb c l.
+Proof. unfold aset. cbn [aget]. destruct (addr_eqb c k) eqn:E; [reflexivity|apply aget_adel_other; exact E]. Qed.
+
+Lemma sattr_eqb_refl a : sattr_eqb a a = true.
+Proof. destruct a; cbn; rewrite ?addr_eqb_refl, ?Z.eqb_refl, ?N.eqb_refl; reflexivity. Qed.
+Lemma list_eqb_refl {A} (f : A -> A -> bool) (Hf : forall a, f a a = true) l : list_eqb f l l = true.
+Proof. induction l as [|x l IH]; cbn; [reflexivity|]. rewrite Hf, IH. reflexivity. Qed.
+
+Definition seen_inv (seen : list (addr * list sattr)) (s : state) : Prop :=
+  forall c at_ a, aget addr_eqb c seen = Some at_ -> find_alloc c (allocs s) = Some a -> a_cache a = at_.
+Definition present (s : state) (c : addr) : bool :=
+  match find_oalloc c (listing_of s) with Some _ => true | None => false end.
+
+Lemma present_spec s c : present s c = true <-> find_alloc c (allocs s) <> None.
+Proof.
+  unfold present. rewrite listing_of_map, find_oalloc_listing. destruct (find_alloc c (allocs s)); cbn; split; congruence.
+Qed.
+
+(* entries of clients that have an allocation stay right across any step *)
+Lemma seen_pres cfg s e s' acts seen : inv cfg s -> step cfg s e = (s', acts) ->
+  seen_inv seen s -> (forall c at_, aget addr_eqb c seen = Some at_ -> present s c = true) -> seen_inv seen s'.
+Proof.
+  intros [Hnd _] Hs Hinv Hpres c at_ a' Hg Hf.
+  apply find_alloc_some in Hf as [Hin' Hc'].
+  destruct (step_frame _ _ _ _ _ Hs _ Hin') as [(a & Ha & (Ecl & _ & _ & _ & _ & Eca & _))|(_ & Hnone & _)].
+  - rewrite Eca. eapply Hinv; [exact Hg|]. rewrite <- Hc', Ecl. apply find_alloc_in_nodup; assumption.
+  - exfalso. apply (proj1 (present_spec s c) (Hpres _ _ Hg)). rewrite <- Hc'. exact Hnone.
+Qed.
+
+Lemma allocate_new_cache cfg s src tid c tr lt fam df rp ep rt mt s' acts attrs :
+  step cfg s (EReq src tid c (RqAllocate tr lt fam df rp ep rt mt) false) = (s', acts) ->
+  In (Success src MAllocate tid attrs) acts -> find_alloc src (allocs s) = None ->
+  exists a, allocs s' = allocs s ++ [a] /\ a_client a = src /\ a_cache a = attrs.
+Proof.
+  cbn [step]. intros H Hin Hnone.
+  destruct (authenticate cfg s c) as [uid|code ch] eqn:Ha; [|inversion H; subst; cbn in Hin; intuition discriminate].
+  unfold h_allocate in H. rewrite Hnone in H.
+  repeat (dmatch H; try (inversion H; subst; cbn in Hin; intuition discriminate)).
+  all: inversion H; subst; cbn in Hin; destruct Hin as [Hin|[Hin|[]]]; try discriminate; inversion Hin; subst.
+  all: eexists; cbn; repeat split; eauto.
+Qed.
+
+Lemma chk_C19_cache_model cfg h : forall s seen, inv cfg s -> seen_inv seen s ->
+  chk_C19_cache seen (listing_of s) (model_trace cfg s h) = true.
+Proof.
+  induction h as [|e r IH]; intros s seen Hinv Hseen; cbn [model_trace chk_C19_cache]; [reflexivity|].
+  destruct (step cfg s e) as [s' acts] eqn:Hs. cbn [chk_C19_cache os_ev os_acts os_allocs].
+  set (seen1 := filter (fun p => match find_oalloc (fst p) (listing_of s) with Some _ => true | None => false end) seen).
+  assert (Hg1 : forall c at_, aget addr_eqb c seen1 = Some at_ -> aget addr_eqb c seen = Some at_ /\ present s c = true).
+  { intros c at_ Hg. unfold seen1 in Hg.
+    change (filter _ seen) with (filter (fun p : addr * list sattr => present s (fst p)) seen) in Hg.
+    rewrite (aget_filter_key (present s)) in Hg. destruct (present s c); [auto|discriminate]. }
+  assert (Hs1 : seen_inv seen1 s) by (intros c at_ a Hg Hf; eapply Hseen; [apply (Hg1 _ _ Hg)|exact Hf]).
+  assert (Hp1 : forall c at_, aget addr_eqb c seen1 = Some at_ -> present s c = true) by (intros c at_ Hg; apply (Hg1 _ _ Hg)).
+  pose proof (inv_step _ _ _ _ _ Hinv Hs) as Hinv'.
+  pose proof (seen_pres _ _ _ _ _ _ Hinv Hs Hs1 Hp1) as Hdef.
+  assert (Default : chk_C19_cache seen1 (listing_of s') (model_trace cfg s' r) = true) by (apply IH; assumption).
+  destruct e as [src tid c rq unk|src p d|src n d|relay from d|dt|relay]; try exact Default.
+  destruct rq as [tr lt fam df rp ep rt mt|? ?|?|? ?|]; try exact Default.
+  destruct (req_shape _ _ _ _ _ _ _ _ _ Hs) as (evs & tail & Eacts & Hlife & Htail). cbn [req_method] in Htail.
+  rewrite Eacts, replies_app, (replies_life _ Hlife). cbn [app].
+  destruct Htail as [->|[(at_ & ->)|(code & ch & ->)]]; [exact Default| |exact Default].
+  cbn [replies filter].
+  assert (Hin : In (Success src MAllocate tid at_) acts) by (rewrite Eacts; apply in_or_app; right; left; reflexivity).
+  destruct unk; [cbn [step] in Hs; inversion Hs as [[Es Ea]]; rewrite <- Ea in Hin; cbn in Hin; destruct Hin as [E|[]]; discriminate|].
+  rewrite listing_of_map, find_oalloc_listing. destruct (find_alloc src (allocs s)) as [a|] eqn:Hf; cbn [option_map].
+  - (* retransmission: the cached attributes *)
+    destruct (aget addr_eqb src seen1) as [first|] eqn:Hg; [|exact Default].
+    pose proof Hs as Hs0. cbn [step] in Hs0.
+    destruct (authenticate cfg s c) as [uid|code ch] eqn:Ha; [|inversion Hs0 as [[Es Ea]]; rewrite <- Ea in Hin; cbn in Hin; destruct Hin as [E|[]]; discriminate].
+    rewrite (allocate_existing _ _ _ _ _ _ _ _ _ _ _ _ _ _ _ Ha Hf) in Hs.
+    destruct (a_tid a =? tid)%N; inversion Hs as [[Es Ea]]; rewrite <- Ea in Hin; cbn in Hin; destruct Hin as [E|[]]; try discriminate.
+    inversion E; subst at_. rewrite (Hs1 _ _ _ Hg Hf), (list_eqb_refl _ sattr_eqb_refl). exact Default.
+  - (* a new allocation: remember what it was told *)
+    destruct (allocate_new_cache _ _ _ _ _ _ _ _ _ _ _ _ _ _ _ _ Hs Hin Hf) as (a & Hal & Hcl & Hca).
+    apply IH; [exact Hinv'|]. intros c0 at0 a0 Hg0 Hf0. rewrite aget_aset in Hg0.
+    destruct (addr_eqb c0 src) eqn:E.
+    + apply addr_eqb_eq in E. subst c0. inversion Hg0; subst at0. rewrite Hal, (find_alloc_app_new _ _ _ Hf Hcl) in Hf0.
+      inversion Hf0 as [Ea0]. rewrite <- Ea0. exact Hca.
+    + eapply Hdef; eauto.
+Qed.
+
+Lemma chk_C19_steps_model cfg h : forall s, inv cfg s -> relays_unique s -> Forall cache_ok (allocs s) -> env_ok cfg s h ->
+  all_steps chk_C19_step (listing_of s) (model_trace cfg s h) = true.
+Proof.
+  induction h as [|e r IH]; intros s Hinv Hu Hca Henv; cbn [model_trace all_steps]; [reflexivity|].
+  cbn [env_ok] in Henv. destruct Henv as [He Hr]. destruct (step cfg s e) as [s' acts] eqn:Hs. cbn [all_steps os_allocs fst] in *.
+  rewrite (chk_C19_step_model _ _ _ _ _ Hinv Hu Hca He Hs). cbn.
+  apply IH; [eapply inv_step; eauto|eapply relays_unique_step; eauto|eapply cache_step; eauto|exact Hr].
+Qed.
+
+(* for every configuration and every history in which the relay address generator never hands out a port that a live
+   allocation holds: every response goes to the request's source with its transaction id and method; a Binding success
+   and an Allocate success report the source address; an Allocate success reports the relayed address of the
+   requester's allocation, which no other allocation has; a retransmitted Allocate creates nothing and gets exactly the
+   attributes of the original success; 437 and every other error change nothing *)
+Theorem chk_C19_model cfg ep h : env_ok cfg (init ep) h -> chk_C19 (model_case cfg ep h) = true.
+Proof.
+  intros Henv. unfold chk_C19, model_case. cbn [rc_steps]. apply andb_true_iff. split.
+  - change (@nil obs_alloc) with (listing_of (init ep)).
+    apply chk_C19_steps_model; [apply inv_init|constructor|constructor|exact Henv].
+  - change (@nil obs_alloc) with (listing_of (init ep)). apply chk_C19_cache_model; [apply inv_init|].
+    intros c at_ a Hg. discriminate.
 Qed.
